@@ -5,7 +5,13 @@ Driver for stream `crash` (C02). One op per line, one observation per line.
   hdr <a> <b>                      -> ok        AddHeaders a..b
   blk <h> <ntx> <pairs|->          -> ok        AddBlock of block h (pairs = conflictId.signerId,…)
   flush                            -> abstraction of the batch the model's flush emits | none
-  gc                               -> the SeekGC prefixes the model predicts after the last flush | -
+  blkwait <h> <ntx> <pairs|->      -> AddBlock of block h with a flush during its back-pressure wait (Model/PersistGC.blockWait):
+                                      abstraction of the batch that flush writes | none
+  flushfail                        -> err | none   a flush the backend refuses (MemCachedStore.persist's error branch,
+                                      Model/PersistFlush: begin + fail): nothing reaches the backend, the cache keeps all
+  gc                               -> one tryRunGC of the model after the last flush: the SeekGC prefixes it calls | -
+                                      (state changing: block deletions go to the write cache, pages are dropped)
+  gcpages                          -> the header-hash pages that run removed from the backend | -
   reset <t> <cur> <hdr>            -> ok | err  Blockchain.Reset(t) on the stopped node
   rbatch sem …                     -> ok | mismatch …   the real batch (semantic abstraction) against the
                                       model's stage batches (adjacent batches may coalesce; the direct
@@ -15,6 +21,8 @@ Driver for stream `crash` (C02). One op per line, one observation per line.
 import Std.Data.HashMap
 import NeoModel.Base.Proto
 import NeoModel.Model.Persist
+import NeoModel.Model.PersistGC
+import NeoModel.Model.PersistFlush
 import NeoModel.Generated.Stages
 open NeoModel NeoModel.Persist
 
@@ -47,6 +55,9 @@ structure St where
   rdb : Db := Db.empty
   hm : HM := {}              -- the backend's content
   top : Nat := 0             -- highest header/block height seen in the case
+  gcLast : Nat := 0          -- GNode.gcLast / GNode.lru of the model node
+  lru : List Nat := []
+  gcPages : List Nat := []   -- pages the last GC run removed
 
 def B : Nat := Generated.Stages.headerBatchCount
 def Sblocks : Nat := Generated.Stages.resetBlocksBatch
@@ -83,7 +94,7 @@ def pm (b : Bool) : String := if b then "+" else "-"
 
 /-- last write per key wins (the change set is a map). -/
 def dedupe (w : Writes) : Writes :=
-  w.foldl (fun acc p => acc.filter (fun q => q.1 ≠ p.1) ++ [p]) []
+  (w.foldl (fun (m : Std.HashMap Key (Option Val)) p => m.insert p.1 p.2) {}).toList
 
 /-- syntactic abstraction of a flush batch, same vocabulary as the harness' abstractBatch. -/
 def absWrites (w : Writes) : String :=
@@ -103,7 +114,9 @@ def absWrites (w : Writes) : String :=
   let x17 := d.any (fun p => match p.1 with | Key.xlog _ => true | _ => false)
   let xi := d.any (fun p => match p.1 with | Key.xinfo _ => true | _ => false)
   let page := d.filterMap (fun p => match p with | (Key.page q, some _) => some q | _ => none)
-  s!"put ver={pm ver} hp={hp} bp={bp} blk={ranges blk} hdr={ranges hdr} tx={tx} stub={stub} sig={sig} root={ranges root} aux={aux} stor={pm stor} mpt={pm mpt} x17={pm x17} x11=- xi={pm xi} page={ranges page} stage=- sp=- dexec=0 dsig=0 droot=- dpage=- other=0"
+  -- deleted 33-byte DataExecutable keys: block/header records, transactions, conflict stubs
+  let dexec := (d.filter (fun p => match p with | (Key.exec _, none) => true | (Key.tx _ _, none) => true | (Key.stub _, none) => true | _ => false)).length
+  s!"put ver={pm ver} hp={hp} bp={bp} blk={ranges blk} hdr={ranges hdr} tx={tx} stub={stub} sig={sig} root={ranges root} aux={aux} stor={pm stor} mpt={pm mpt} x17={pm x17} x11=- xi={pm xi} page={ranges page} stage=- sp=- dexec={dexec} dsig=0 droot=- dpage=- other=0"
 
 /-- the finite key universe a case can touch (heights ≤ top). -/
 def keyUniverse (H : Hist) (top : Nat) : List Key :=
@@ -155,19 +168,23 @@ def kv (w : String) : Option (String × String) :=
   | [a, b] => some (a, b)
   | _ => none
 
-/-- tryRunGC (blockchain.go:1438-1472) + removeOldTransfers' timestamp cache, for chains below 2·B. -/
-def gcPrediction (s : St) : String :=
-  if ¬ s.rub ∨ s.gcp = 0 ∨ ¬ s.flushedSomething then "-" else
-  let new := s.persisted
-  if new < s.mtb then "-" else
-  let tgt := (new - s.mtb) / s.gcp * s.gcp
-  if tgt > s.gcp ∧ new / s.gcp ≠ s.prevPersisted / s.gcp then
-    -- gcBlockTimes: LRU of the last 8 block indexes divisible by gcp that storeBlock has seen
-    let seen := s.acceptedAtFlush / s.gcp - tgt / s.gcp
-    let ts := if seen < 8 then "7273" else ""
-    let till : Int := ((Int.ofNat tgt + 1) / Int.ofNat B - 1) * Int.ofNat B
-    ts ++ "03" ++ (if till > 0 then "80" else "")
-  else "-"
+/-- one tryRunGC (Model/PersistGC.gcRun) after the last flush. The transfer GC is skipped by the code when the
+timestamp of the target block is not in gcBlockTimes (removeOldTransfers, blockchain.go:1566-1581): an LRU of the
+last 8 block indexes divisible by GCP that storeBlock has seen. -/
+def gcStep (s : St) (n : Node) : St × String :=
+  if ¬ s.rub ∨ s.gcp = 0 ∨ ¬ s.flushedSomething then (s, "-") else
+  let H := mkHist s.tbl
+  let g : GNode := { n := n, gcLast := s.gcLast, lru := s.lru }
+  let r := gcRun H B ⟨s.mtb, s.gcp⟩ g s.prevPersisted (fun _ v => v)
+  if r.2.isEmpty then (s, "-") else
+  let tgt := (s.persisted - s.mtb) / s.gcp * s.gcp
+  let seen := s.acceptedAtFlush / s.gcp - tgt / s.gcp
+  let ts := if seen < Generated.Stages.blockTimesCache then "7273" else ""
+  -- the backend as a hash map again: what the model's database function still holds
+  let hm' := s.hm.filter (fun k _ => (r.1.n.db k).isSome)
+  let gone := (s.hm.toList.filterMap (fun p => match p.1 with | Key.page q => if (r.1.n.db (Key.page q)).isNone then some q else none | _ => none))
+  ({ s with node := some { r.1.n with db := dbOf hm' }, hm := hm', gcLast := r.1.gcLast, lru := r.1.lru, gcPages := gone },
+   ts ++ "03" ++ (if r.2.length = 2 then "80" else ""))
 
 partial def step (s : St) (ws : List String) : St × String :=
   match ws with
@@ -191,6 +208,22 @@ partial def step (s : St) (ws : List String) : St × String :=
       let H := mkHist tbl
       ({ s with tbl := tbl, node := some (Persist.step H B n .block).1, top := max s.top hh }, "ok")
     | _, _, _ => (s, "bad-op")
+  | ["blkwait", h, ntx, pairs] =>
+    match s.node, h.toNat?, ntx.toNat? with
+    | some n, some hh, some nt =>
+      if hh ≠ n.height + 1 then (s, "bad-height") else
+      let tbl := (hh, { ntx := nt, pairs := parsePairs pairs : BlkInfo }) :: s.tbl
+      let H := mkHist tbl
+      let r := blockWait H B n
+      let flushed := n.cache ++ waitHeaderWrites B n      -- what `flush_during_wait_atomic` says the batch is
+      match r.2 with
+      | some _ =>
+        let hm' := compactW s.hm flushed
+        ({ s with tbl := tbl, node := some { r.1 with db := dbOf hm' }, hm := hm', top := max s.top hh,
+                  prevPersisted := s.persisted, persisted := n.height, acceptedAtFlush := n.height, flushedSomething := true },
+         absWrites flushed)
+      | none => ({ s with tbl := tbl, node := some r.1, top := max s.top hh, flushedSomething := false }, "none")
+    | _, _, _ => (s, "bad-op")
   | ["flush"] =>
     match s.node with
     | some n =>
@@ -203,7 +236,18 @@ partial def step (s : St) (ws : List String) : St × String :=
          absWrites n.cache)
       | none => ({ s with flushedSomething := false }, "none")
     | none => (s, "bad-op")
-  | ["gc"] => (s, gcPrediction s)
+  | ["flushfail"] =>
+    match s.node with
+    | some n =>
+      let r := mrunFrom { ps := n.db, mem := n.cache } [.begin, .fail]
+      if n.cache.isEmpty then (s, "none")
+      else if r.2.isEmpty then ({ s with node := some (r.1.toNode n) }, "err") else (s, "model-wrote")
+    | none => (s, "bad-op")
+  | ["gc"] =>
+    match s.node with
+    | some n => gcStep { s with gcPages := [] } n
+    | none => (s, "bad-op")
+  | ["gcpages"] => (s, ranges s.gcPages)
   | ["reset", t, _, _] =>
     match s.node, t.toNat? with
     | some n, some tt =>
